@@ -204,7 +204,7 @@ def check_table(case):
 # ------------------------------------------------------------------ built-in savings
 
 SAVINGS = ["L2Saving", "Saving(L2Cost(0))", "Saving(GaussianVarCost((0,1)))", "Saving(GaussianCovCost)",
-           "L2Cost(0)"]
+           "L2Cost(0)", "Saving(L1Cost(0.5,scale=2))"]
 
 
 def make_saving(name, p):
@@ -221,11 +221,15 @@ def make_saving(name, p):
         return Saving(GaussianVarCost((0.0, 1.0)))
     if name == "Saving(GaussianCovCost)":
         return Saving(GaussianCovCost((0.0, 1.0)))
+    if name == "Saving(L1Cost(0.5,scale=2))":  # user-defined cost with an extra hyper-parameter
+        from userdefs.scorers import L1Cost
+
+        return Saving(L1Cost(0.5, 2.0))
     raise ValueError(name)
 
 
 def saving_min_size(name, p):
-    return {"L2Saving": 1, "Saving(L2Cost(0))": 1, "L2Cost(0)": 1,
+    return {"L2Saving": 1, "Saving(L2Cost(0))": 1, "L2Cost(0)": 1, "Saving(L1Cost(0.5,scale=2))": 1,
             "Saving(GaussianVarCost((0,1)))": 2, "Saving(GaussianCovCost)": p + 1}[name]
 
 
